@@ -52,6 +52,9 @@ struct Case {
     /// the application that learns of the peer's close (ConnectionLost) calls close() itself this
     /// many ms later, as many applications do in their cleanup path
     late_close_ms: Option<u64>,
+    /// with `Kind::Blackhole(n)`: the other side's application calls close() this many ms after n went
+    /// silent (probe timeouts have fired unanswered by then)
+    close_after_silence_ms: Option<u64>,
 }
 
 fn cfgs() -> Vec<PairCfg> {
@@ -183,6 +186,7 @@ fn run_case(base: Instant, c: &Case, dump: bool) -> Out {
         let mut closed_at: Option<Duration> = None;
         let mut lost_seen: [Option<Duration>; 2] = [None, None];
         let mut late_closed = [false; 2];
+        let mut silence_closed = false;
         // where in the record log a draining connection's application called close()
         let mut draining_close: [Option<usize>; 2] = [None, None];
         let mut close_emitted = true;
@@ -276,6 +280,13 @@ fn run_case(base: Instant, c: &Case, dump: bool) -> Out {
                 }
             }
             observe(&p, &mut lives);
+            if let (Some(ms), Kind::Blackhole(n), Some(t0)) = (c.close_after_silence_ms, &c.kind, closed_at) {
+                let other = 1 - *n;
+                if !silence_closed && p.w.t >= t0 + Duration::from_millis(ms) {
+                    silence_closed = true;
+                    apply_op(&mut p, &Op::Close(other, 55));
+                }
+            }
             if let Some(ms) = c.late_close_ms {
                 for node in [CLIENT, SERVER] {
                     let chs: Vec<proto::ConnectionHandle> = p.w.nodes[node].conns.keys().copied().collect();
@@ -660,7 +671,7 @@ pub fn main(args: &Args) -> ! {
             if !thorough && heavy && *wl == Wl::W2 {
                 continue;
             }
-            let b = run_case(base, &Case { cfg: cfg.client.name.clone(), wl: *wl, at_step: 0, kind: Kind::None, mask: 0, dup_close: false, reset_ms: None, late_close_ms: None }, false);
+            let b = run_case(base, &Case { cfg: cfg.client.name.clone(), wl: *wl, at_step: 0, kind: Kind::None, mask: 0, dup_close: false, reset_ms: None, late_close_ms: None, close_after_silence_ms: None }, false);
             baselines.insert((cfg.client.name.clone(), wn.clone()), b.trace);
             let nsteps = b.steps.min(if thorough { 200 } else { 90 });
             let stride = if thorough || nsteps < 50 { 1 } else { 2 };
@@ -670,24 +681,29 @@ pub fn main(args: &Args) -> ! {
                         if !heavy && mask != 0 && mask != 1 {
                             continue;
                         }
-                        cases.push(Case { cfg: cfg.client.name.clone(), wl: *wl, at_step: j, kind: kind.clone(), mask, dup_close: false, reset_ms: None, late_close_ms: None });
+                        cases.push(Case { cfg: cfg.client.name.clone(), wl: *wl, at_step: j, kind: kind.clone(), mask, dup_close: false, reset_ms: None, late_close_ms: None, close_after_silence_ms: None });
                     }
-                    cases.push(Case { cfg: cfg.client.name.clone(), wl: *wl, at_step: j, kind: kind.clone(), mask: 0, dup_close: true, reset_ms: None, late_close_ms: None });
+                    cases.push(Case { cfg: cfg.client.name.clone(), wl: *wl, at_step: j, kind: kind.clone(), mask: 0, dup_close: true, reset_ms: None, late_close_ms: None, close_after_silence_ms: None });
                     if kind != Kind::BothClose && heavy {
                         for ms in [0u64, 40] {
-                            cases.push(Case { cfg: cfg.client.name.clone(), wl: *wl, at_step: j, kind: kind.clone(), mask: 0, dup_close: false, reset_ms: None, late_close_ms: Some(ms) });
+                            cases.push(Case { cfg: cfg.client.name.clone(), wl: *wl, at_step: j, kind: kind.clone(), mask: 0, dup_close: false, reset_ms: None, late_close_ms: Some(ms), close_after_silence_ms: None });
                         }
                     }
                     if kind != Kind::BothClose && heavy {
                         for ms in [1u64, 40] {
-                            cases.push(Case { cfg: cfg.client.name.clone(), wl: *wl, at_step: j, kind: kind.clone(), mask: 0, dup_close: false, reset_ms: Some(ms), late_close_ms: None });
-                            cases.push(Case { cfg: cfg.client.name.clone(), wl: *wl, at_step: j, kind: kind.clone(), mask: 1, dup_close: false, reset_ms: Some(ms), late_close_ms: None });
+                            cases.push(Case { cfg: cfg.client.name.clone(), wl: *wl, at_step: j, kind: kind.clone(), mask: 0, dup_close: false, reset_ms: Some(ms), late_close_ms: None, close_after_silence_ms: None });
+                            cases.push(Case { cfg: cfg.client.name.clone(), wl: *wl, at_step: j, kind: kind.clone(), mask: 1, dup_close: false, reset_ms: Some(ms), late_close_ms: None, close_after_silence_ms: None });
                         }
                     }
                 }
                 if cfg.client.idle_ms.is_some() || cfg.client.name == "plain" {
                     for n in [CLIENT, SERVER] {
-                        cases.push(Case { cfg: cfg.client.name.clone(), wl: *wl, at_step: j, kind: Kind::Blackhole(n), mask: 0, dup_close: false, reset_ms: None, late_close_ms: None });
+                        cases.push(Case { cfg: cfg.client.name.clone(), wl: *wl, at_step: j, kind: Kind::Blackhole(n), mask: 0, dup_close: false, reset_ms: None, late_close_ms: None, close_after_silence_ms: None });
+                        if cfg.client.name == "plain" && j % 4 == 0 {
+                            for ms in [700u64, 3000] {
+                                cases.push(Case { cfg: cfg.client.name.clone(), wl: *wl, at_step: j, kind: Kind::Blackhole(n), mask: 0, dup_close: false, reset_ms: None, late_close_ms: None, close_after_silence_ms: Some(ms) });
+                            }
+                        }
                     }
                 }
             }
@@ -774,8 +790,8 @@ pub fn main(args: &Args) -> ! {
             };
             rep.violation(Violation {
                 signature: sig2,
-                what: format!("cfg={} wl={:?} kind={:?} step={} mask={:#b} dup_close={} stateless-reset-after={:?}ms close()-after-ConnectionLost={:?}ms: {what}", c.cfg, c.wl, c.kind, c.at_step, c.mask, c.dup_close, c.reset_ms, c.late_close_ms),
-                replay: json!({"check":"c08","cfg":c.cfg,"wl":format!("{:?}",c.wl),"kind":format!("{:?}",c.kind),"step":c.at_step,"mask":c.mask,"dup_close":c.dup_close,"reset_ms":c.reset_ms,"late_close_ms":c.late_close_ms}),
+                what: format!("cfg={} wl={:?} kind={:?} step={} mask={:#b} dup_close={} stateless-reset-after={:?}ms close()-after-ConnectionLost={:?}ms close()-after-silence={:?}ms: {what}", c.cfg, c.wl, c.kind, c.at_step, c.mask, c.dup_close, c.reset_ms, c.late_close_ms, c.close_after_silence_ms),
+                replay: json!({"check":"c08","cfg":c.cfg,"wl":format!("{:?}",c.wl),"kind":format!("{:?}",c.kind),"step":c.at_step,"mask":c.mask,"dup_close":c.dup_close,"reset_ms":c.reset_ms,"late_close_ms":c.late_close_ms,"close_after_silence_ms":c.close_after_silence_ms}),
             });
         }
     }
@@ -886,6 +902,7 @@ fn replay(args: &Args) -> ! {
         dup_close: r["dup_close"].as_bool().unwrap_or(false),
         reset_ms: r["reset_ms"].as_u64(),
         late_close_ms: r["late_close_ms"].as_u64(),
+        close_after_silence_ms: r["close_after_silence_ms"].as_u64(),
     };
     let o = run_case(Instant::now(), &c, true);
     println!("violations: {:?}", o.viol);
